@@ -161,20 +161,21 @@ theorem fnsPipeline_at (kind : ReceiverKind) (mode : InputMode) (smode : Mode) (
              (mode = .implBlock ∧ smode = .impl ∧ msgC = msgConcreteInImpl))
     (opts : Opts) (hn : opts.noDepsValue = false) (bs : List (Nat × Sig)) (traitRef : Toks) (ind : ImplIndirection)
     (subAttrs : List Attr) (k : List TraitFn → TraitGenerics → DepMode → GenImpl → Outcome)
-    (hne : bs.flatMap (sigMisusesAt false smode) ≠ []) :
+    (hne : bs.flatMap (sigMisusesAt false smode) ≠ []) (as : List (List Attr)) :
     ∃ ml ∈ bs.flatMap (sigMisusesAt false smode),
       (match analyzeFns kind opts (bs.map (·.2)) {} with
        | .error e => Outcome.ofErr e
        | .ok (fns, tg) =>
-         match detectDepMode mode fns with
+         match detectDepMode mode (attachCfg as fns) with
          | .error e => Outcome.ofErr e
          | .ok depMode =>
-           match genImplBlock opts traitRef ind tg mode depMode subAttrs fns with
+           match genImplBlock opts traitRef ind tg mode depMode subAttrs (attachCfg as fns) with
            | .error site => .panic site
-           | .ok im => k fns tg depMode im) = .diag ml.1 ∧
+           | .ok im => k (attachCfg as fns) tg depMode im) = .diag ml.1 ∧
       (match analyzeFns kind opts (bs.map (·.2)) {} with
        | .error _ => firstDepsError bs
        | .ok (fns, _) => firstConcrete fns bs) = some ml.2 := by
+  simp only [detectDepMode_attachCfg]
   rcases analyzeFns_at kind hn smode bs {} with ⟨ml, hmem, he, hf⟩ | ⟨hall, _, fns, tg', hok, hz⟩
   · exact ⟨ml, hmem, by simp only [he, Outcome.ofErr], by simp only [he]; exact hf⟩
   · have hconc : bs.any (fun q => q.2.depIsConcrete) = true := by
@@ -371,7 +372,7 @@ theorem T_C15_at (v : Variant) (attr : Toks) (item : Item) (x : String × Locus)
             (fun fns tg d im => .ok (.modOut m' items
               [.trait (genTraitDef (v.apply a.opts) .plain d m'.attrs a.traitVis a.traitIdent tg {} fns .module), .impl im]
               [.raw (a.traitVis ++ [i "use", i m'.ident] ++ pathSep ++ [i a.traitIdent, p ';'])]))
-            (by rw [h]; simp)
+            (by rw [h]; simp) (bodyFnAttrs items)
           rw [sigBases_sigs] at hres hloc
           rw [h] at hmem
           refine ⟨ml, hmem, hres, ?_⟩
@@ -410,7 +411,7 @@ theorem T_C15_at (v : Variant) (attr : Toks) (item : Item) (x : String × Locus)
             (printAttrs (m'.attrs.filter (fun a => a.subKind != .asyncTrait)) ++
               (if m'.unsafe_ then [i "unsafe"] else []) ++ [i "impl"] ++ m'.selfTy ++ [braces (items.flatMap BodyItem.print)])
             [.impl im]))
-          (by rw [h]; simp)
+          (by rw [h]; simp) (bodyFnAttrs items)
         rw [sigBases_sigs] at hres hloc
         rw [h] at hmem
         refine ⟨ml, hmem, hres, ?_⟩
